@@ -21,6 +21,8 @@ struct Mon {
     /// count-dependent predictions are suspended until the next accepted Class A downlink
     suspended: bool,
     cur_keys: Option<([u8; 16], [u8; 16], u32)>,
+    /// an uplink was aborted before its frame reached the radio: whether it took the owed ACK with it is not stated
+    ack_unknown: bool,
     uplinks: u64,
 }
 
@@ -110,6 +112,12 @@ impl Monitor for Mon {
             }
             _ => {}
         }
+        if aborted_before_tx(w, rec) {
+            // the uplink never reached the radio; whether it counts (ADR counter, owed ACK) is not stated
+            self.suspended = true;
+            self.ack_unknown = true;
+            stats.bump("probe.uplink-aborted-before-tx");
+        }
         let dels: Vec<crate::world::Delivered> = w.env.borrow().delivered[rec.del_lo..rec.del_hi].to_vec();
         let reacts = reactions(w, rec);
         let is_send = matches!(rec.op, Op::Send { .. });
@@ -125,6 +133,10 @@ impl Monitor for Mon {
                     let want_mtype = if *confirmed { rc::MTYPE_CONF_UP } else { rc::MTYPE_UNCONF_UP };
                     if p.mtype != want_mtype {
                         return Some(Violation::new("C12.mtype", "", format!("{desc}: MType {} but the application asked for confirmed={confirmed}", p.mtype)));
+                    }
+                    if self.ack_unknown {
+                        self.ack_unknown = false;
+                        self.owed_ack = p.ack();
                     }
                     if p.ack() != self.owed_ack {
                         return Some(Violation::new(
@@ -285,7 +297,7 @@ impl Property for C12 {
         self.own_generate(seed, run, tier, avoid)
     }
     fn execute(&self, case: &MacCase, want_trace: bool) -> Outcome {
-        let mut mon = Mon { adr: true, cnt: 0, dr: None, owed_ack: false, suspended: false, cur_keys: None, uplinks: 0 };
+        let mut mon = Mon { adr: true, cnt: 0, dr: None, owed_ack: false, suspended: false, cur_keys: None, uplinks: 0, ack_unknown: false };
         let out = run_case(case, &mut mon, want_trace);
         Outcome { violation: out.violation, stats: out.stats, trace: out.trace }
     }
